@@ -26,6 +26,10 @@ contract("_FindChangeDependencies.__call__", source=M + "_FindChangeDependencies
              "forall(lambda i: implies(1 <= i and i < len(self.change_list) and not (self.change_list[i] in result), "
              "       forall(lambda a, b: implies(0 <= a and a < len(res_of(self.change_list[i])) and 0 <= b and b < len(res_of(self.change)), "
              "              not related(res_of(self.change_list[i])[a], res_of(self.change)[b])))))",
+             # closure: a change left in force is unrelated to EVERY earlier change that is taken along (complete w.r.t. list order)
+             "forall(lambda k, j: implies(1 <= k and k < len(self.change_list) and 0 <= j and j < k and not (self.change_list[k] in result) and has(result, self.change_list[j]), "
+             "       forall(lambda a, b: implies(0 <= a and a < len(res_of(self.change_list[k])) and 0 <= b and b < len(res_of(self.change_list[j])), "
+             "              not related(res_of(self.change_list[k])[a], res_of(self.change_list[j])[b])))))",
              "forall(lambda x: implies(select(old(self.changed_resources), x), select(self.changed_resources, x)), 'Resource')",
              # only changes of the list are taken, at most once per position; nothing follows => only the change itself
              "len(result) <= len(self.change_list)",
@@ -42,6 +46,10 @@ contract("_FindChangeDependencies.__call__", source=M + "_FindChangeDependencies
              "forall(lambda x: implies(select(old(self.changed_resources), x), select(self.changed_resources, x)), 'Resource')",
              "forall(lambda t: implies(0 <= t and t < len(result), covers(self.changed_resources, result[t])))",
              "forall(lambda t: implies(1 <= t and t < len(result), dep(result[t], self.changed_resources)))",
+             "forall(lambda j: implies(0 <= j and j < i + 1 and has(result, self.change_list[j]), covers(self.changed_resources, self.change_list[j])))",
+             "forall(lambda k, j: implies(1 <= k and k < i + 1 and 0 <= j and j < k and not (self.change_list[k] in result) and has(result, self.change_list[j]), "
+             "       forall(lambda a, b: implies(0 <= a and a < len(res_of(self.change_list[k])) and 0 <= b and b < len(res_of(self.change_list[j])), "
+             "              not related(res_of(self.change_list[k])[a], res_of(self.change_list[j])[b])))))",
              "forall(lambda k: implies(1 <= k and k < i + 1 and not (self.change_list[k] in result), "
              "       forall(lambda a, b: implies(0 <= a and a < len(res_of(self.change_list[k])) and 0 <= b and b < len(res_of(self.change)), "
              "              not related(res_of(self.change_list[k])[a], res_of(self.change)[b])))))"]}},
@@ -129,7 +137,7 @@ bounded_check(name="c11-dependencies-native", props=["C11"], contract="_FindChan
 
 
 def _xc_dep_closure(combo):
-    """native-only clause (not among the proved ones): a change left in force is unrelated to EVERY earlier change that is taken along
+    """the closure clause of __call__ (post-4, proved), evaluated independently of the contract text: a change left in force is unrelated to EVERY earlier change that is taken along
     (the dependency closure is complete with respect to list order) -- evaluated on the real __call__"""
     d = _xc_dep_build(combo)
     finder = d["self"]
@@ -152,4 +160,5 @@ def _xc_dep_closure(combo):
 
 
 bounded_check(name="c11-dependency-closure-native", props=["C11"], fn=_xc_dep_closure, domain=_xc_dep_domain, exhaustive=True,
-              label="native only (clause not proved): on the same domain, nothing left in force touches a resource related to an EARLIER change that is undone")
+              label="CPython cross-check of the closure clause (post-4 of __call__) written independently of the contract text: on the same domain, nothing left in force "
+                    "touches a resource related to an EARLIER change that is undone")
